@@ -17,7 +17,8 @@ import Verif.Model.Validity
         -> `ok nb=<time> na=<time>` (+ ` cert=<sec>,<sec>` after softcas when cas=1) | `rej:<status>:<stage>`
     ssh  mode=def|lim lna=<time> g= p= ct=<n> bd= now=<time> uva=<TD> uvb=<TD> tva=<u64|-> tvb=<u64|->
          cva=<u64> cvb=<u64>
-    sshp … same with kva=<TD> kvb=<TD> (token options) instead of tva/tvb
+    sshp … same with kva=<TD> kvb=<TD> (token options) instead of tva/tvb; optional mva=<time> mvb=<time>:
+         validity instants set by the SSH template (replace cva/cvb through sshutil's toValidity)
         -> `ok va=<u64> vb=<u64>` | `rej:<status>:<stage>` | `crash`
     xrenew casnow=<time> bd= onb=<time> ona=<time>    -> `ok d=<seconds> nboff=<ns>` | `rej:500:cas`
     sshrenew anow=<time> bd= ova=<u64> ovb=<u64> ct=  -> `ok d=<u64> vaoff=<int>` | `rej` | `crash`
@@ -28,6 +29,7 @@ import Verif.Model.Validity
     sshapi op=renew|rekey unow= anow= pnow= g= p= bd= ova= ovb= ct= tls=0|1 -> `ok d= vaoff=0 id=<identity secs> idoff=0` | `rej` | `crash`
     idsign va=<u64> vb=<u64>                          -> `ok id=<unix nb>,<unix na>`
     migrate a=<claims> p=<claims> ssh=0|1             -> as `claims`, for the provisioner reloaded from the admin DB
+    chainset | chain fn=<Type.Method> | order fn=<method> -> the Lean tables chainTable / orderTable, rendered
     acme now=<time> def= rnb=<time> rna=<time>        -> `nb=<time> na=<time>` | `rej:500` (order not storable)
     overflow lo=<int> hi=<int> k=<int>                 -> the k-th wrap witness (seconds) for [lo,hi], see below
 -/
@@ -166,7 +168,9 @@ def eval (line : String) : Option String := do
                pure (sshSignWith cl m now user mods c0)
              else do
                let tok : SshOpts := { va := (← td? (← get "kva")), vb := (← td? (← get "kvb")) }
-               pure (sshSign cl m now user tok c0))
+               match get "mva", get "mvb" with
+               | some a, some b => pure (sshSignTemplate cl m now user tok (← time? a) (← time? b) c0.ctype)
+               | _, _ => pure (sshSign cl m now user tok c0))
     -- /ssh/sign with an identity CSR (idcsr=1): the identity certificate must pass the X.509 chain with
     -- default dates, is then given the SSH certificate's validity (identityModifier) and goes to SoftCAS
     let r := if (get "idcsr") = some "1" then
@@ -244,6 +248,17 @@ def eval (line : String) : Option String := do
     else match effective a (migrateClaims ssh p) with
       | none => pure "a=ok p=bad"
       | some c => pure s!"a=ok p=ok eff={fullS c.merged}"
+  | "chainset" => pure (",".intercalate (chainTable.map (·.fn)))
+  | "chain" =>
+    let fn ← get "fn"
+    match chainTable.find? (·.fn = fn) with
+    | some e => pure e.render
+    | none => pure "not-in-table"
+  | "order" =>
+    let fn ← get "fn"
+    match orderTable.find? (·.1 = fn) with
+    | some e => pure e.2
+    | none => pure "not-in-table"
   | "acme" =>
     let now ← time? (← get "now")
     match acmeNewOrder now (← int? (← get "def")) (← time? (← get "rnb")) (← time? (← get "rna")) with
